@@ -68,7 +68,7 @@ class C03(Scenario):
                    "that reads it (either neighbour bin is legitimate there)", "string categories contain no None in "
                    "vector mode (np.unique cannot order None and str)"]
     expected_faults = ["batch_split", "weight_form"]
-    expected_probes = ["row_on_edge", "row_nonfinite", "zero_weight_row", "empty_batch", "fast_path_unit_weights", "template_used_before", "interrupted_iadd_empty", "interrupted_pickle", "interrupted_copy"]
+    expected_probes = ["row_on_edge", "row_nonfinite", "zero_weight_row", "empty_batch", "fast_path_unit_weights", "template_used_before", "interrupted_iadd_empty", "interrupted_pickle", "interrupted_copy", "single_precision_columns"]
 
     def generate(self, rng, tier, profile):
         big = tier == "thorough"
@@ -105,6 +105,13 @@ class C03(Scenario):
         s = rng.fork("schedule")
         nb = s.randint(1, 5)
         cuts = sorted(s.randint(0, n) for _ in range(nb - 1))
+        narrow = kn.chance(0.15)
+        if narrow and weights == "one" and regime == "dyadic":
+            # single-precision columns with unit weights: a few values of 2**24 among the small ones (exact in double
+            # precision whatever the order, not in single precision)
+            for r in recs:
+                if d.chance(0.12):
+                    r[d.pick(["x", "y"])] = d.pick([16777216.0, -16777216.0, 33554432.0])
         steps = []
         for c in cuts + [n]:
             steps.append({"op": "batch", "upto": c})
@@ -113,7 +120,7 @@ class C03(Scenario):
         return {"spec": sp, "records": [specmod.enc_record(r) for r in recs], "weights": weights, "box": box,
                 "steps": steps, "regime": regime,
                 # the value templates of the sparse containers were used as aggregators themselves before (both trees alike)
-                "used_templates": kn.chance(0.15)}
+                "used_templates": kn.chance(0.15), "narrow_columns": narrow}
 
     def run(self, case, w, R):
         sp = case["spec"]
@@ -209,7 +216,9 @@ class C03(Scenario):
                         w.bump("probe_row_on_edge")
                         special += 1
             # vector executor
-            b = make_box(w.records, rows, box)
+            b = make_box(w.records, rows, box, None, bool(case.get("narrow_columns")))
+            if case.get("narrow_columns"):
+                w.bump("probe_single_precision_columns")
             fp = box_fingerprint(b)
             if weights == "one":
                 o = call(vec.fill.numpy, b)
